@@ -64,6 +64,10 @@ func genPkgContents(r *rng.R, t *SrcTree) []wire.Content {
 				Dst: fmt.Sprintf("/etc/app/g%d", i), Type: rng.Pick(r, []string{"config", "file", "config|noreplace"}), Info: fi(), Packager: tag()})
 		case 6:
 			cs = append(cs, wire.Content{Dst: fmt.Sprintf("/var/lib/app/d%d", i), Type: "dir", Info: fi(), Packager: tag()})
+			if r.Bool() {
+				// … declared before an entry that lies beneath it: the directory keeps what was declared for it
+				cs = append(cs, wire.Content{Src: rng.Pick(r, t.Files), Dst: fmt.Sprintf("/var/lib/app/d%d/%s", i, rng.Pick(r, []string{"state.db", "a/b/state.db"}))})
+			}
 		case 7:
 			// the target of a declared symlink is text: a path that does not exist on the build host, a relative one, and
 			// paths that do exist there – a file, a directory (of the source tree: whole-second mtimes) – must all be shipped
